@@ -44,6 +44,10 @@ func histStorageLine(g *Gen) string {
 		// rules whose first pattern match may come from either a hostname or a URL request
 		return "||" + Pick(g, hostPool) + Pick(g, []string{"^", "/ads", "^$script", "/*", ""})
 	case 5:
+		if g.Chance(1, 4) {
+			// document-level exceptions for pages that occur as referrers of web requests
+			return "@@||" + Pick(g, []string{"a.org", "example.org", "example.org", Pick(g, hostPool)}) + "^$" + Pick(g, []string{"document", "urlblock", "genericblock", "elemhide", "document,important", "generichide,urlblock", "jsinject"})
+		}
 		if g.Chance(1, 3) {
 			// rules every query reaches and whose answer depends on WHAT KIND of name is asked (real addresses are exempt
 			// from $denyallow on hostname requests): nothing learnt about one name may be remembered for the next
@@ -298,6 +302,9 @@ func (h *histEngines) runOp(rq Req) (string, *histResult, *rules.Request) {
 		// Engine.MatchRequest: the verdict for a request and its referrer, and the cosmetic option derived from it
 		q := buildRequest(Req{Kind: "url", URL: rq.URL, Source: rq.Source, Type: rq.Type})
 		res := h.eng.MatchRequest(q)
+		r := &histResult{web: res}
+		r.ser = r.serialise() // before any getter is asked: getters must leave the result as it is
+		opt0 := res.GetCosmeticOption()
 		b := res.GetBasicResult()
 		cls, text := "n", "nil"
 		if b != nil {
@@ -309,9 +316,11 @@ func (h *histEngines) runOp(rq Req) (string, *histResult, *rules.Request) {
 				cls = "i" + cls
 			}
 		}
-		r := &histResult{web: res}
-		r.ser = r.serialise()
-		return "W" + cls + "/" + text + "/" + fmt.Sprint(uint32(res.GetCosmeticOption())), r, q
+		flag := ""
+		if res.GetCosmeticOption() != opt0 || res.GetBasicResult() != b {
+			flag = "!ASKING-FOR-THE-VERDICT-ALTERS-THE-RESULT"
+		}
+		return "W" + cls + "/" + text + "/" + fmt.Sprint(uint32(opt0)) + flag, r, q
 	case "dns":
 		dq := &urlfilter.DNSRequest{Hostname: rq.Hostname, ClientName: rq.ClientName, DNSType: rq.DNSType, SortedClientTags: rq.Tags}
 		q := buildRequest(Req{Kind: "host", Hostname: rq.Hostname, ClientName: rq.ClientName, ClientIP: rq.ClientIP, Tags: rq.Tags, DNSType: rq.DNSType})
@@ -523,9 +532,9 @@ func init() {
 				excFor := func(u string) string {
 					return "@@||" + strings.TrimPrefix(u, "http://") + "^$" + Pick(wg, []string{"urlblock", "genericblock", "document", "urlblock,match-case"})
 				}
-				content := "||example.org^\n||example.org^$script,important\n" + excFor(pa) + "\n@@||a.org/Page$urlblock,match-case\n"
+				content := "||example.org^\n||example.org^$script,important\n" + excFor(pa) + "\n@@||a.org/Page$urlblock,match-case\n@@||docpage.test^$document\n@@||hidepage.test^$elemhide,urlblock\n"
 				ls := []listSpec{{1, false, content}}
-				srcs := []string{pa, pb, pa, pb, pb, "http://a.org/Page", "http://a.org/page", "http://a.org/Page", "", pa, strings.ToUpper(pa[:12]) + pa[12:], pb}
+				srcs := []string{pa, pb, pa, pb, pb, "http://a.org/Page", "http://a.org/page", "http://a.org/Page", "", pa, strings.ToUpper(pa[:12]) + pa[12:], pb, "http://docpage.test/", "http://hidepage.test/x"}
 				wg.R.Shuffle(len(srcs), func(i, j int) { srcs[i], srcs[j] = srcs[j], srcs[i] })
 				h := newHistEngines(ls, sd%2 == 0)
 				defer h.cleanup()
@@ -543,6 +552,14 @@ func init() {
 						if flags == "" {
 							flags = fmt.Sprintf("!WEB-VERDICT-HISTORY-DEPENDENT:op=%d referrer=%s", k, src)
 						}
+					}
+					// a request no rule of its own matches, on a page covered by a document-level exception: the getters of the
+					// result are pure (cosmetic option before and after the verdict was asked for, in both orders)
+					r2 := e.MatchRequest(rules.NewRequest("http://norule.test/x.js", src, rules.TypeScript))
+					o0 := r2.GetCosmeticOption()
+					b0 := r2.GetBasicResult()
+					if (r2.GetCosmeticOption() != o0 || r2.GetBasicResult() != b0) && flags == "" {
+						flags = fmt.Sprintf("!ASKING-FOR-THE-VERDICT-ALTERS-THE-RESULT:referrer=%s", src)
 					}
 				}
 				st.Add("ops", len(srcs))
